@@ -25,7 +25,7 @@ CHECKS = {
          "Every recorder leaf's exact event/write sequence and the combined statistics equal the reference interpreter's prediction for generated streams and all zoo nestings.",
          "Nestings are a fixed zoo of 20 type-checking compositions.", "6/C13"),
  "C02": ("RunnerLab", "model-based PBT: generated features x outcome plans x harness-owned schedules against the real runner; per-attempt reference automaton + fault accounting; proptest generation/shrinking; bounded-exhaustive schedule DFS for small cases; a second campaign applies the automaton to the crate built with its `tracing` feature (vtrace: no event of an attempt, Log included, after its Finished)",
-         "Every attempt observed in thousands of generated runs (all outcome kinds at every position, hooks, retries, concurrent interleavings chosen by the harness) equals the prediction of an independent reference model of one attempt; all schedules of small cases enumerated. Exploration: evidence within the generated bounds, no proof.",
+         "Every attempt observed in thousands of generated runs (all outcome kinds at every position, hooks, retries, concurrent interleavings chosen by the harness) equals the prediction of an independent reference model of one attempt; all schedules of small cases enumerated. Exploration: evidence within the generated bounds, no proof. Known finding D11 (tracing build: a log from outside every scenario's span delivered to an attempt after its Finished, within the window before the main loop reads its completion) is reported as KNOWN-FINDING.",
          "Shared background steps / World::new are judged by admissibility + global accounting. Trusts the harness driver and the 60-line model.", "6/C02"),
  "C03": ("RunnerLab", "PBT with validity predicate over the whole event stream (framing / bracket nesting / ParsingFinished counts) under generated parser behaviours and schedules; exhaustive schedules of small cases; a second campaign applies the same predicate to the crate built with its `tracing` feature (vtrace: log bursts, child spans outliving their step, logs from detached threads)",
          "Validity predicate over the full stream for generated feature sets (empty features/rules, parser errors, lazy delivery, retries, fail-fast) under harness-chosen completion orders.",
@@ -42,7 +42,7 @@ CHECKS = {
  "C07": ("RunnerLab", "PBT with interval-exclusion oracle in stream, callback log and dispatch hook (H2) under lazy delivery, delayed serial retries and harness-chosen schedules incl. sleeping past retry deadlines; a second campaign applies the stream oracle to the crate built with its `tracing` feature (vtrace)",
          "No foreign scenario event / user callback / dispatch inside any serial attempt, for generated mixes of serial and concurrent scenarios, lazy parsers, delayed retries; exhaustive schedules of small cases.",
          "Retry deadlines use real time; the driver may sleep past them as a schedule action.", "6/C07"),
- "C08": ("RunnerLab", "PBT with dispatch-cut oracle (H2 batches vs the H4 announcement and the H3 observation of the first final failure), bracket closure predicate and metamorphic fail-fast/normal pair",
+ "C08": ("RunnerLab", "PBT with dispatch-cut oracle (H2 batches vs the H4 announcement and the H3 observation of the first final failure), bracket closure predicate and metamorphic fail-fast/normal pair; a second campaign on the crate built with its `tracing` feature (vtrace)",
          "After the main loop observed a final failure nothing is dispatched; everything started finishes; brackets close; failure-free runs equal normal runs (metamorphic).",
          "Uses hooks H2/H3/H4 for the dispatch order (no shared clock between stream and dispatch).", "6/C08"),
  "C09": ("RunnerLab", "PBT with invariants over World-instance groups of the callback log (instance ids, mutation counters, hook arguments, ScenarioFinished reason) joined with the attempt model",
